@@ -57,7 +57,7 @@ def lookup(m):
     return d
 
 
-def api_objects(m, order=None, wrap=None, share=False, int_zero=False):
+def api_objects(m, order=None, wrap=None, share=False, int_zero=False, container=None, extra_keys=False):
     """(pair Potential list, EAMPotential list[, dipoles, quadrupoles]) through the Python API;
     element order = `order` or m['elements'] restricted to the element set"""
     b = build_api.Builder(m["env"])
@@ -105,6 +105,10 @@ def api_objects(m, order=None, wrap=None, share=False, int_zero=False):
                 dens[o] = fpot(pd) if pd is not None else zero
                 if wrap is not None and pd is not None:
                     dens[o] = wrap("density_fs", (e, o), dens[o])
+            if extra_keys:
+                # a density dictionary that also knows a species which is not tabulated (the objects of a ternary set
+                # used for a binary table): that entry concerns no function of this file
+                dens["Zq9"] = build_api.Builder({}).potdef({"ranges": [{"m": None, "s": None, "body": {"k": "form", "name": "constant", "p": [7.5]}}]})
         else:
             dens = fpot(lk["density"][e]) if e in lk["density"] else zero
             if wrap is not None and e in lk["density"]:
@@ -122,6 +126,12 @@ def api_objects(m, order=None, wrap=None, share=False, int_zero=False):
     if m["kind"] == "adp":
         out.append(plist("dipole"))
         out.append(plist("quadrupole"))
+    if container in ("tuple", "iterator", "generator"):
+        # the pair potentials handed over as another iterable than a list (for ONE write: an iterator is used up by it)
+        conv = {"tuple": tuple, "iterator": iter, "generator": lambda l: (x for x in l)}[container]
+        out[0] = conv(out[0])
+        if container == "tuple":
+            out[1] = tuple(out[1])
     return out
 
 
